@@ -411,7 +411,7 @@ def _sum(ex, args, kwargs, node):
   v = args[0]
   if isinstance(v, VOpaque):
     return VReal(uf('sum_' + v.okind, [v], z3.RealSort()), np=True)
-  if v.kind == 'framecol':
+  if hasattr(v, 'total'):
     return v.total()
   ex.unsupported(node, 'sum of %s' % v.kind)
 
